@@ -462,11 +462,15 @@ func (x *Exec) checkSteps(st *State, fr *Frame, li *loopInfo) {
 	for k, c := range ls.Steps {
 		env.what = fmt.Sprintf("%s loop %d step (%s:%d)", x.prog.relName(fr.fn), li.ordinal, shortFile(c.File), c.Line)
 		parts := x.splitConj(c.Expr, 0)
+		base := fmt.Sprint(k)
+		if c.Label != "" {
+			base = c.Label
+		}
 		for j, pe := range parts {
-			d := fmt.Sprint(k)
+			d := base
 			desc := c.Text
 			if len(parts) > 1 {
-				d = fmt.Sprintf("%d.%d", k, j)
+				d = fmt.Sprintf("%s.%d", base, j)
 				desc += "  [conjunct: " + exprString(pe) + "]"
 			}
 			x.oblige(st, "step"+fmt.Sprint(li.ordinal), d, env.evalBool(pe), x.propsFor(c), desc, token.NoPos)
@@ -915,6 +919,9 @@ func (x *Exec) step(st *State, b *ssa.BasicBlock, idx int, in ssa.Instruction) b
 		return x.unop(st, in)
 	case *ssa.BinOp:
 		a, c := x.value(st, in.X), x.value(st, in.Y)
+		if (in.Op == token.QUO || in.Op == token.REM) && len(c.L) == 1 && leavesOf(c.T)[0].Sort == "Int" {
+			x.oblige(st, "divzero", describe(in.Y), tNot(tEq(c.L[0], "0")), x.spec.Props, "division by zero", in.Pos())
+		}
 		x.setReg(st, in, x.binop(in.Op, a, c, in.Type()))
 	case *ssa.Store:
 		p := x.value(st, in.Addr)
@@ -1129,6 +1136,11 @@ func (x *Exec) binop(op token.Token, a, b Val, rt types.Type) Val {
 		t = "(- " + l + " " + r + ")"
 	case token.MUL:
 		t = "(* " + l + " " + r + ")"
+	case token.QUO:
+		// Go truncates toward zero; SMT div floors: correct for the sign
+		t = "(ite (>= " + l + " 0) (div " + l + " " + r + ") (- (div (- " + l + ") " + r + ")))"
+	case token.REM:
+		t = "(- " + l + " (* " + r + " (ite (>= " + l + " 0) (div " + l + " " + r + ") (- (div (- " + l + ") " + r + ")))))"
 	case token.LSS:
 		if isStr {
 			t = "(str.< " + l + " " + r + ")"
